@@ -75,6 +75,11 @@ pub fn run(tier: &str, seed: u64, order: usize, out: &mut Out) {
             // names that only differ in letter case, or that collate differently under other orders
             f.1.push_str("<v c=\"{{userName}}{{username}}{{UserName}}{{USERNAME}}\" d=\"{{itemID}}{{itemId}}{{item_id}}{{Z}}{{a1}}{{a10}}{{a2}}{{_x}}{{$y}}\"/>");
         }
+        // character references in unusual spellings (names that differ from a known one only in letter case, with several
+        // candidates; unknown names; upper-case `X`): what they decode to must not depend on the process
+        for f in g.files.iter_mut() {
+            f.1.push_str("<v t=\"&AACUTE;&DAGGER;&PRIME;&Amp;&NBSP;&aMp;&OUML;&LT;&notanentity;&#X41;&#x1F600;\">&AACUTE; &DAGGER; &PRIME; &Amp; &NBSP; &OUML; &EACUTE; &Gt; &ETH; &oSLASH; &Nu; &NU; &PI; &SIGMA; &THORN; &YACUTE;</v>");
+        }
         // a third of the groups has no external script at all (the script runtime then depends on inline wxs only)
         if g.scripts.is_empty() && gi % 3 != 1 {
             g.scripts.push(("s/z".into(), "exports.z = 1".into()));
